@@ -47,6 +47,10 @@ THEOREMS = [
     "Typedpy.C14.abstract_entries_example",
     "Typedpy.C14.reachable_no_sealed_ancestor",
     "Typedpy.C14.sub_required_superset",
+    "Typedpy.C14.sub_accepts_base_accepts_reachable",
+    "Typedpy.C14.direct_sub_accepts_base_accepts",
+    "Typedpy.reachable_sigOk",
+    "Typedpy.reachable_bridge_wf",
 ]
 RULE = ("histories of class statements: DAG hierarchies of 1..4 classes (single / two struct bases, plain mixins "
         "before or after, ImmutableStructure / FinalStructure / AbstractStructure roots), fields from the type-directed "
